@@ -4,7 +4,9 @@ Part 1 (round trips): CCD/CMOS/MKID/APD detectors with random valid properties a
 of data containers initialised are written with the real Detector.save / to_asdf and read back
 with Detector.load / from_asdf; the harness's own field-by-field structural comparator (public
 API only, no library ``==``) compares the state extracted *before* saving with the state of the
-reloaded detector.  The library's ``==`` is evaluated as a secondary witness.
+reloaded detector.  The library's ``==`` is evaluated as a secondary witness.  Processed-data trees hold groups
+with variables, groups with only coordinates (shared with generated sub-groups or not) and/or only attributes
+(root included) and empty intermediate groups.
 
 Part 2 (models): generated pipelines holding ``pyxel.models.load_detector`` at every pipeline
 position are run by the real ``pyxel.run_mode``; probe models after the load model (vf.probes.trace
